@@ -28,6 +28,9 @@ meta['confirmed'] = {'demo_pristine': 'PASS (rc 0)', 'demo_patched': 'FAIL (rc 1
 meta['check_result'] = {c: ('CAUGHT (exit 1, VIOLATION)'
                             if rc == '1' and ('VIOLATION property=%s' % c) in out
                             else 'exit %s' % rc) for c, rc in caught.items()}
+if os.environ.get('ONLY'):
+    meta['check_result']['note'] = ('machine time ran out: the check was run with --only %s '
+                                    '(the harness this change concerns), not in full' % os.environ['ONLY'])
 vio = re.findall(r'counterexample (.*)', out)
 meta['counterexamples'] = vio[:3]
 json.dump(meta, open(os.path.join(dst, 'meta.json'), 'w'), indent=1)
